@@ -23,6 +23,7 @@ type ClientServerStream struct {
 	clientSend chan any
 	trailer    metadata.MD
 	closed     context.CancelFunc
+	closeErrM  sync.Mutex // guards closeErr, which can be read before Close if the parent context is done
 	closeErr   error
 }
 
@@ -40,13 +41,17 @@ func NewClientServerStream(ctx context.Context) *ClientServerStream {
 func (s *ClientServerStream) Close(err error) {
 	// like a real gRPC server, headers the handler has set but not sent are delivered along with the status
 	(&serverStream{s}).sendHeaderIfNeeded()
+	s.closeErrM.Lock()
 	s.closeErr = err
+	s.closeErrM.Unlock()
 	close(s.serverSend)
 	s.closed()
 }
 
 // safe to call if s.serverSend is closed
 func (s *ClientServerStream) closeErrLocked() error {
+	s.closeErrM.Lock()
+	defer s.closeErrM.Unlock()
 	if s.closeErr == nil {
 		return io.EOF
 	}
